@@ -38,7 +38,10 @@ def gen_script(rng, maxlen=7, cancel=False):
         tail += (rel if gated else []) + ls.drain_moves(outs, 2)
     tail += ls.drain_moves(outs, 3 * n + 3)
     if cancel:
-        tail = ["x", "c0"] + (rel + rel if gated else []) + ["z"] + tail
+        # after cancel a worker whose select has both arms ready may still take the send arm, loop and start another
+        # (gated) call; a release only reaches calls that have started: n+1 release rounds guarantee every call that
+        # can ever start has been released before the census
+        tail = ["x", "c0"] + (rel * (n + 1) if gated else []) + ["z"] + tail
     return cfg + " | " + " ".join(body + tail + (["a"] if st in HASFN else []) + ["z"])
 
 
